@@ -1,5 +1,187 @@
-"""Data lemmas (over constants extracted from the source) and property-level lemmas."""
+"""Data lemmas: regular-language facts about constants extracted from the real source
+(the lexer's token patterns), decided by z3's regex theory.  The patterns are read from
+/repo's current slyparse.py by AST on every run - nothing is copied."""
+import ast
+import time
+import z3
+
+from .classtable import REPO_SRC
+import os
+
+
+# ---------------------------------------------------------------------- python regex -> z3 regex (subset)
+class RxParser:
+    def __init__(self, pat):
+        self.p = pat
+        self.i = 0
+
+    def parse(self):
+        r = self.alt()
+        if self.i != len(self.p):
+            raise ValueError(f"regex: trailing input at {self.i} in {self.p!r}")
+        return r
+
+    def alt(self):
+        parts = [self.seq()]
+        while self.i < len(self.p) and self.p[self.i] == "|":
+            self.i += 1
+            parts.append(self.seq())
+        return parts[0] if len(parts) == 1 else z3.Union(*parts)
+
+    def seq(self):
+        items = []
+        while self.i < len(self.p) and self.p[self.i] not in "|)":
+            items.append(self.quant())
+        if not items:
+            return z3.Re("")
+        return items[0] if len(items) == 1 else z3.Concat(*items)
+
+    def quant(self):
+        a = self.atom()
+        while self.i < len(self.p) and self.p[self.i] in "*+?":
+            c = self.p[self.i]
+            self.i += 1
+            if self.i < len(self.p) and self.p[self.i] == "?":
+                self.i += 1        # lazy quantifier: same language
+            a = z3.Star(a) if c == "*" else z3.Plus(a) if c == "+" else z3.Option(a)
+        return a
+
+    def atom(self):
+        c = self.p[self.i]
+        if c == "(":
+            self.i += 1
+            if self.p.startswith("?:", self.i):
+                self.i += 2
+            r = self.alt()
+            assert self.p[self.i] == ")"
+            self.i += 1
+            return r
+        if c == "[":
+            return self.cls()
+        if c == ".":
+            self.i += 1
+            return z3.Diff(z3.AllChar(z3.ReSort(z3.StringSort())), z3.Re("\n"))
+        if c == "\\":
+            self.i += 2
+            return z3.Re(self.esc(self.p[self.i - 1]))
+        self.i += 1
+        return z3.Re(c)
+
+    def esc(self, ch):
+        return {"n": "\n", "t": "\t", "r": "\r"}.get(ch, ch)
+
+    def cls(self):
+        assert self.p[self.i] == "["
+        self.i += 1
+        neg = False
+        if self.p[self.i] == "^":
+            neg = True
+            self.i += 1
+        parts = []
+        while self.p[self.i] != "]":
+            c = self.p[self.i]
+            if c == "\\":
+                c = self.esc(self.p[self.i + 1])
+                self.i += 2
+            else:
+                self.i += 1
+            if self.p[self.i] == "-" and self.p[self.i + 1] != "]":
+                hi = self.p[self.i + 1]
+                self.i += 2
+                parts.append(z3.Range(c, hi))
+            else:
+                parts.append(z3.Re(c))
+        self.i += 1
+        u = parts[0] if len(parts) == 1 else z3.Union(*parts)
+        if neg:
+            return z3.Diff(z3.AllChar(z3.ReSort(z3.StringSort())), u)
+        return u
+
+
+def rx(pat):
+    return RxParser(pat).parse()
+
+
+# ---------------------------------------------------------------------- extraction
+def lexer_data(src_root=None):
+    path = os.path.join(src_root or os.environ.get("PYVC_REPO_SRC", REPO_SRC), "jaqalpaq", "parser", "slyparse.py")
+    tree = ast.parse(open(path).read())
+    data = {"order": []}
+    for node in tree.body:
+        if isinstance(node, ast.ClassDef) and node.name == "JaqalLexer":
+            for item in node.body:
+                if isinstance(item, ast.Assign) and len(item.targets) == 1 and isinstance(item.targets[0], ast.Name):
+                    n = item.targets[0].id
+                    try:
+                        v = ast.literal_eval(item.value)
+                    except Exception:
+                        continue
+                    data[n] = v
+                    if isinstance(v, str) and n not in ("ignore",):
+                        data["order"].append(n)
+                elif isinstance(item, ast.FunctionDef):
+                    data.setdefault("methods", []).append(item.name)
+    return data
+
+
+ANY = z3.Full(z3.ReSort(z3.StringSort()))
+DIGITS = z3.Plus(z3.Range("0", "9"))
+# shape of CPython's repr() of a finite float: -?d+.d+ | -?d(.d+)?e[+-]dd+   (cross-checked natively by bounded/c01.py)
+FLOAT_REPR = z3.Concat(z3.Option(z3.Re("-")), z3.Union(
+    z3.Concat(DIGITS, z3.Re("."), DIGITS),
+    z3.Concat(z3.Range("0", "9"), z3.Option(z3.Concat(z3.Re("."), DIGITS)), z3.Re("e"), z3.Union(z3.Re("+"), z3.Re("-")), z3.Range("0", "9"), DIGITS)))
+INT_REPR = z3.Concat(z3.Option(z3.Re("-")), DIGITS)
+
+
+def _solve(name, prop, constraints, finding=None, timeout=20000):
+    t0 = time.time()
+    s = z3.Solver()
+    s.set("timeout", timeout)
+    for c in constraints:
+        s.add(c)
+    r = s.check()
+    d = {"id": f"{prop}/data:{name}", "base_id": f"data:{name}", "kind": "data", "result": "discharged" if r == z3.unsat else "failed",
+         "solver": "z3-regex", "time": round(time.time() - t0, 3), "role": "plain", "reason": str(r), "note": None, "line": None, "smt2": None, "findings": None}
+    if r == z3.sat:
+        m = s.model()
+        d["witness"] = {str(k): (m[k].as_string() if z3.is_string_value(m[k]) else str(m[k])) for k in m.decls()}
+        d["note"] = f"counter-model {d['witness']}"
+    return d
 
 
 def run(eng, prop, tier):
-    return {"obligations": [], "assumptions": [], "summary": None}
+    out = []
+    if prop not in ("C01", "C02", "C16"):
+        return {"obligations": [], "assumptions": [], "summary": None}
+    L = lexer_data()
+    s1, s2 = z3.String("s1"), z3.String("s2")
+    if prop == "C02":
+        mc = rx(L["ignore_multiline_comment"])
+        # a block comment ends at the first */ : no match has a proper prefix that is also a match
+        out.append(_solve("multiline-comment-prefix-free", prop, [z3.InRe(s1, mc), z3.Length(s2) > 0, z3.InRe(z3.Concat(s1, s2), mc)]))
+        lc = rx(L["ignore_comment"])
+        out.append(_solve("line-comment-stops-at-newline", prop, [z3.InRe(s1, lc), z3.Contains(s1, z3.StringVal("\n"))]))
+    if prop == "C01":
+        num = rx(L["NUMBER"])
+        integer = rx(L["INT"])
+        ident = rx(L["IDENTIFIER"])
+        out.append(_solve("float-repr-lexes-as-NUMBER", prop, [z3.InRe(s1, FLOAT_REPR), z3.Not(z3.InRe(s1, num))]))
+        out.append(_solve("int-repr-lexes-as-INT-not-NUMBER", prop, [z3.InRe(s1, INT_REPR), z3.Or(z3.Not(z3.InRe(s1, integer)), z3.InRe(s1, num))]))
+        # no rule that sly tries before NUMBER can take a prefix of a printed literal
+        earlier = [rx(L[n]) for n in L["order"][: L["order"].index("NUMBER")]]
+        out.append(_solve("no-earlier-rule-matches-a-literal-prefix", prop,
+                          [z3.InRe(z3.Concat(s1, s2), z3.Union(FLOAT_REPR, INT_REPR)), z3.Length(s1) > 0, z3.InRe(s1, z3.Union(*earlier))]))
+        # a printed float is not cut short: no proper prefix of it followed by the rest is what NUMBER would stop at with
+        # a remainder that starts an identifier (the '1e-06' -> INT IDENTIFIER failure)
+        out.append(_solve("float-repr-not-INT-then-IDENTIFIER", prop,
+                          [z3.InRe(z3.Concat(s1, s2), FLOAT_REPR), z3.InRe(s1, integer), z3.Length(s2) > 0, z3.Not(z3.InRe(z3.Concat(s1, s2), num)),
+                           z3.InRe(s2, z3.Concat(ident, ANY))]))
+    if prop == "C16":
+        has_error = "error" in L.get("methods", [])
+        d = {"id": f"{prop}/data:lexer-defines-error-handler", "base_id": "data:lexer-defines-error-handler", "kind": "data",
+             "result": "discharged" if has_error else "failed", "solver": "ast-scan", "time": 0.0, "role": "plain", "reason": "", "line": None, "smt2": None,
+             "findings": None, "note": None if has_error else "JaqalLexer has no error() method: an illegal character escapes as sly.lex.LexError"}
+        out.append(d)
+    return {"obligations": out, "assumptions": ["sly lexes with Python re semantics on the master regex built from the class-body order (DESIGN 6.5)",
+                                               "shape of repr(float) for finite floats (cross-checked natively on a grid by the bounded stand-in)"],
+            "summary": {"lemmas": [o["id"] for o in out]}}
